@@ -99,6 +99,7 @@ func ksNewEnv(o ksOpts) (*ksEnv, error) {
 	if err := e.h.setup(ctx, cluster, "", prometheus.NewRegistry(), testServiceURL); err != nil {
 		return nil, err
 	}
+	ksInstallBufs(e.quiet)
 	for _, m := range e.h.volmgr.AllReadable() {
 		i := byUUID[m.UUID]
 		e.perm = append(e.perm, i)
@@ -107,6 +108,21 @@ func ksNewEnv(o ksOpts) (*ksEnv, error) {
 		e.uuids = append(e.uuids, m.UUID)
 	}
 	return e, nil
+}
+
+// handler.setup creates a fresh pool of 64 MiB buffers (sync.Pool: re-allocated and zeroed after every
+// GC), which costs ~100 ms per case.  The harnesses issue at most one buffer-using request at a time,
+// so the pool is replaced by one that always hands out the same 64 MiB slice (never cleared: stale
+// bytes beyond the block size must not leak into answers).
+var ksBigBuf []byte
+
+func ksInstallBufs(log logrus.FieldLogger) {
+	if ksBigBuf == nil {
+		ksBigBuf = make([]byte, BlockSize)
+	}
+	p := newBufferPool(log, 8, BlockSize)
+	p.Pool.New = func() interface{} { return ksBigBuf }
+	bufs = p
 }
 
 func (e *ksEnv) cleanup() {
